@@ -268,7 +268,15 @@ def eval_model(R, t, ms, q, absd=False):
     return va / vb, d, {k: x for k, x in dim.items() if x != 0}, na + nb
 
 
-def eval_pint(ureg, t, objs, alts, q):
+def eval_pint(ureg, t, objs, alts, q, trace=None):
+    r = _eval_pint(ureg, t, objs, alts, q, trace)
+    if trace is not None:
+        m = getattr(r, "magnitude", r)
+        trace.append(abs(getattr(m, "nominal_value", m)))  # in the units pint computes in (the model works in root units)
+    return r
+
+
+def _eval_pint(ureg, t, objs, alts, q, trace):
     if t[0] == "m":
         return alts[t[1]] if t[2] else objs[t[1]]
     if t[0] == "q":
@@ -276,10 +284,10 @@ def eval_pint(ureg, t, objs, alts, q):
     if t[0] == "n":
         return t[1]
     if t[0] == "neg":
-        return -eval_pint(ureg, t[1], objs, alts, q)
+        return -eval_pint(ureg, t[1], objs, alts, q, trace)
     if t[0] == "pow":
-        return eval_pint(ureg, t[1], objs, alts, q) ** t[2]
-    a, b = eval_pint(ureg, t[2], objs, alts, q), eval_pint(ureg, t[3], objs, alts, q)
+        return eval_pint(ureg, t[1], objs, alts, q, trace) ** t[2]
+    a, b = eval_pint(ureg, t[2], objs, alts, q, trace), eval_pint(ureg, t[3], objs, alts, q, trace)
     return {"+": lambda: a + b, "-": lambda: a - b, "*": lambda: a * b, "/": lambda: a / b}[t[1]]()
 
 
@@ -310,7 +318,8 @@ def case_arith(case, col=None):
         model_err = None
     except Bad as b:
         model_err = str(b)
-    s, r = attempt(eval_pint, ureg, t, objs, alts, qq)
+    trace = []
+    s, r = attempt(eval_pint, ureg, t, objs, alts, qq, trace)
     if model_err:
         if s == "ok" and model_err == "dim":
             raise Violation("measurement_arithmetic_accepts_dimension_mismatch", f"{t}: returned {r!r}")
@@ -326,7 +335,7 @@ def case_arith(case, col=None):
     f, root, dim, tainted, _ = R.resolve_compound(units)
     if dim != {k: Fraction(v) for k, v in mdim.items() if v != 0}:
         raise Violation("measurement_arithmetic_dimension", f"{t}: {dict(units)} has dimension {dim}, expected {mdim}")
-    if _extreme(R, t, ms, q):
+    if _extreme(R, t, ms, q) or any(v and not (1e-120 < v < 1e120) for v in trace):
         raise Skip("float_range")  # std_dev ** 2 under/overflows inside the uncertainties package
     nv = getattr(mag, "nominal_value", mag) * float(f)
     sd = getattr(mag, "std_dev", 0.0) * abs(float(f))
